@@ -13,3 +13,5 @@ for p in "$@"; do
 done
 git -C /repo checkout -- .
 git -C /repo status --short
+# the Generated/*.lean files were regenerated from the patched source: bring them back
+PYTHONPATH="$HERE/harness" PYTHONDONTWRITEBYTECODE=1 /venv/bin/python -m ptv.translate >/dev/null 2>&1
